@@ -121,17 +121,33 @@ fn c09_fibonacci_accept_reject() {
     finish("c09_fibonacci_accept_reject", cases, bad);
 }
 
+// a STARK without any constraint (constraint degree 0, hence no quotient polynomial)
+#[derive(Copy, Clone)]
+struct Unc<F: RichField + Extendable<D>, const D: usize> { _p: PhantomData<F> }
+impl<F: RichField + Extendable<D>, const D: usize> Stark<F, D> for Unc<F, D> {
+    type EvaluationFrame<FE, P, const D2: usize> = StarkFrame<P, P::Scalar, 2, 0> where FE: FieldExtension<D2, BaseField = F>, P: PackedField<Scalar = FE>;
+    type EvaluationFrameTarget = StarkFrame<ExtensionTarget<D>, ExtensionTarget<D>, 2, 0>;
+    fn eval_packed_generic<FE, P, const D2: usize>(&self, _vars: &Self::EvaluationFrame<FE, P, D2>, _yield_constr: &mut ConstraintConsumer<P>)
+    where FE: FieldExtension<D2, BaseField = F>, P: PackedField<Scalar = FE> {}
+    fn eval_ext_circuit(&self, _builder: &mut CircuitBuilder<F, D>, _vars: &Self::EvaluationFrameTarget, _yield_constr: &mut RecursiveConstraintConsumer<F, D>) {}
+    fn constraint_degree(&self) -> usize { 0 }
+}
+
 // C18: the STARK verifier returns Err (never panics, never accepts) on malformed proofs
 #[test]
 fn c18_stark_malformed() {
     let mut bad = Vec::new();
     let mut cases = 0usize;
-    let config = StarkConfig::standard_fast_config();
-    for n in [8usize, 64, 2048] {
+    // the standard configuration, and configurations whose cap is lower than the blow-up (cap_height < rate_bits)
+    let mut configs: Vec<(StarkConfig, Vec<usize>)> = vec![(StarkConfig::standard_fast_config(), vec![8, 64, 2048])];
+    { let mut c = StarkConfig::standard_fast_config(); c.fri_config.cap_height = 0; configs.push((c, vec![8, 64])); }
+    { let mut c = StarkConfig::standard_fast_config(); c.fri_config.cap_height = 1; c.fri_config.rate_bits = 2; c.fri_config.num_query_rounds = 50; configs.push((c, vec![16, 64])); }
+    for (config, sizes) in configs { let config = &config;
+    for n in sizes {
         let stark = Fib::<F, D> { num_rows: n, _p: PhantomData };
         let rows = trace(n, F::ZERO, F::ONE);
         let pis = [F::ZERO, F::ONE, rows[n - 1][1]];
-        let proof = match prove_rows(stark, rows.clone(), pis, &config) { Ok(p) => p, Err(e) => { bad.push(format!("honest trace of {n} rows: {e}")); continue; } };
+        let proof = match prove_rows(stark, rows.clone(), pis, config) { Ok(p) => p, Err(e) => { bad.push(format!("honest trace of {n} rows: {e}")); continue; } };
         let mut muts: Vec<(&'static str, Box<dyn Fn(&mut StarkProofWithPublicInputs<F, C, D>)>)> = Vec::new();
         muts.push(("surplus public input", Box::new(|p| p.public_inputs.push(F::ZERO))));
         muts.push(("missing public input", Box::new(|p| { p.public_inputs.pop(); })));
@@ -175,8 +191,26 @@ fn c18_stark_malformed() {
             if catch_unwind(AssertUnwindSafe(|| m(&mut p2))).is_err() { continue; }
             if format!("{:?}", p2) == format!("{:?}", proof) { continue; } // the surgery does not apply to this proof
             cases += 1;
-            let o = verdict(stark, p2, &config);
-            if o != "rejected" { bad.push(format!("{n} rows: proof with {what} -> {o}")); }
+            let o = verdict(stark, p2, config);
+            if o != "rejected" { bad.push(format!("{n} rows (cap height {}, rate bits {}): proof with {what} -> {o}", config.fri_config.cap_height, config.fri_config.rate_bits)); }
+        }
+    }
+    }
+    // a STARK without constraints has no quotient: a proof that nevertheless carries an (empty) quotient opening vector, or a quotient cap, is malformed
+    {
+        let config = StarkConfig::standard_fast_config();
+        let stark = Unc::<F, D> { _p: PhantomData };
+        let rows: Vec<[F; 2]> = (0..64).map(|i| [F::from_canonical_u64(i), F::from_canonical_u64(2 * i + 1)]).collect();
+        let t = trace_rows_to_poly_values(rows);
+        match catch_unwind(AssertUnwindSafe(|| prove::<F, C, Unc<F, D>, D>(stark, &config, t, &[], None, &mut TimingTree::default()))) {
+            Ok(Ok(proof)) => {
+                let v = |p: StarkProofWithPublicInputs<F, C, D>| match catch_unwind(AssertUnwindSafe(|| verify_stark_proof(stark, p, &config, None))) { Ok(Ok(())) => "ACCEPTED", Ok(Err(_)) => "rejected", Err(_) => "PANICKED" };
+                cases += 1; let o = v(proof.clone()); if o != "ACCEPTED" { bad.push(format!("constraint-free STARK: honest proof {o}")); }
+                { let mut p2 = proof.clone(); p2.proof.openings.quotient_polys = Some(vec![]); cases += 1; let o = v(p2); if o != "rejected" { bad.push(format!("constraint-free STARK: proof with an empty quotient opening vector -> {o}")); } }
+                { let mut p2 = proof.clone(); p2.proof.openings.quotient_polys = Some(vec![FE::ONE]); cases += 1; let o = v(p2); if o != "rejected" { bad.push(format!("constraint-free STARK: proof with a surplus quotient opening -> {o}")); } }
+                { let mut p2 = proof.clone(); p2.proof.quotient_polys_cap = Some(p2.proof.trace_cap.clone()); cases += 1; let o = v(p2); if o != "rejected" { bad.push(format!("constraint-free STARK: proof with a quotient cap -> {o}")); } }
+            }
+            _ => bad.push("constraint-free STARK: honest proving failed".into()),
         }
     }
     finish("c18_stark_malformed", cases, bad);
